@@ -360,9 +360,9 @@ def VectorBasis(rottype, eigenvect):
         return (0, np.zeros(2))  # all others are rotation, which leaves nothing unchanged in 2d
     # edge cases first:
     if rottype == 1: return (3, np.zeros(3))  # sphere (identity)
-    if rottype == -2: return (0, np.zeros(3))  # point (inversion)
     if rottype == -1: return (2, eigenvect[0])  # plane (pure mirror)
-    return (1, eigenvect[0])  # line (all others--there's a rotation axis involved
+    if rottype < 0: return (0, np.zeros(3))  # point (inversion and all roto-inversions: the axis is inverted)
+    return (1, eigenvect[0])  # line (all proper rotations)
 
 
 def SymmTensorBasis(rottype, eigenvect):
